@@ -125,7 +125,7 @@ def known_class(ck, stage, msg, text):
 
 
 def run(tier, seed):
-    ck = C.Check(PID, tier, seed, "proof")
+    ck = C.Check(PID, tier, seed, "exploration")
     cov = ck.coverage
     pr = C.prove(ck, ["theories/props/C04_Props.vo"], "props.C04_Props", THEOREMS)
     broken = []
